@@ -6,7 +6,8 @@ use quote::ToTokens;
 use serde_json::{json, Map, Value};
 use vlib::util::*;
 
-const TYPES: [&str; 6] = ["f32", "f64", "u8", "i16", "i32", "u32"];
+/// the first six are enumerated exhaustively; the rest appear in the "all numeric types" shapes
+const TYPES: [&str; 11] = ["f32", "f64", "u8", "i16", "i32", "u32", "i8", "u16", "i64", "u64", "usize"];
 const VIS: [&str; 3] = ["", "pub ", "pub(crate) "];
 
 #[derive(Clone, Debug)]
@@ -338,6 +339,13 @@ fn wide_shapes() -> Vec<Shape> {
             }
         }
     }
+    // one field of every numeric type the library implements Lerp for
+    for pat in 0..3usize {
+        for remote in [false, true] {
+            let fields = (0..11usize).map(|i| (i, match pat { 0 => false, 1 => i % 2 == 1, _ => i >= 6 }, i % 3)).collect();
+            v.push(Shape { fields, vis: 1, remote, deco: vec![0; 11], sdeco: 0, modpath: false });
+        }
+    }
     v
 }
 
@@ -388,6 +396,13 @@ fn gen_module(id: usize, sh: &Shape) -> String {
         let fty = ty(f);
         s += &format!("        let tl = {w}::timeline().keyframe({w}::keyframe_from(&v, 1.0).f{f}(55 as {fty})).build();\n        let mut t = sentinel.clone();\n        tl.update(&mut t, 1.0);\n        r.checks += 1; if t.f{f} != 55 as {fty} {{ r.bad(id, format!(\"keyframe_from then setter: f{f} = {{:?}}, expected 55\", t.f{f})); }}\n");
         s += &format!("        let tl = {w}::timeline().keyframe({w}::keyframe(1.0).f{f}(1 as {fty}).f{f}(56 as {fty})).build();\n        let mut t = sentinel.clone();\n        tl.update(&mut t, 1.0);\n        r.checks += 1; if t.f{f} != 56 as {fty} {{ r.bad(id, format!(\"keyframe_from: setter called twice: f{f} = {{:?}}, expected 56\", t.f{f})); }}\n");
+    }
+    // (2c) an explicit Easing::Linear on a keyframe is an easing like any other (not "unset"): under the default
+    // InQuad the segment it starts is linear
+    {
+        let f = anim[0];
+        let fty = ty(f);
+        s += &format!("        let tl = {w}::timeline().duration_seconds(1.0).default_easing(Easing::InQuad).keyframe({w}::keyframe(0.0).f{f}(0 as {fty}).easing(Easing::Linear)).keyframe({w}::keyframe(1.0).f{f}(40 as {fty})).build();\n        let mut t = sentinel.clone();\n        tl.update(&mut t, 0.5);\n        r.checks += 1; if ((t.f{f} as f64) - 20.0).abs() > 1e-3 {{ r.bad(id, format!(\"t=0.5: explicit Linear keyframe easing under default InQuad: f{f} = {{:?}}, reference 20\", t.f{f})); }}\n");
     }
     // (3) per-field interpolation against the linear reference; (4) metadata
     s += &format!("        let tl = {w}::timeline().duration_seconds(2.0).delay_seconds(0.5).repeat(Repeat::Times(1))\n");
@@ -640,7 +655,7 @@ pub fn run(run: Run) -> ! {
     }
     for (i, sh) in wides.iter().enumerate() {
         // quick: 12 fields / even markers / local, 33 fields / no marker / local, 12 fields / one marker at f10 / remote
-        if thorough || i == 16 || i == 36 || i == 23 {
+        if thorough || i == 16 || i == 36 || i == 23 || i == 48 || i == 53 {
             sel.push(sh.clone());
         }
     }
@@ -654,7 +669,7 @@ pub fn run(run: Run) -> ! {
     cov.insert("programs_compiled".into(), json!(compiled));
     cov.insert("evaluations".into(), json!(shapes_a + checks));
     cov.insert("distinct_nontrivial".into(), json!(shapes_a));
-    cov.insert("rule".into(), json!(format!("Layer A (in-process expansion of the real derive source, parsed as a syn::File): ALL struct shapes with {} fields over types {{f32,f64,u8,i16,i32,u32}} x every #[animate] subset x struct visibility {{private,pub,pub(crate)}} (field visibilities rotated) x {{local, #[animate(remote = ...)] proxy (bare identifier or module-qualified path)}}, with doc comments / #[allow] / #[cfg] attributes before or after the #[animate] marker and on the struct (rotated over all shapes, and exhaustively for 1..2 fields), plus (Layer B) 72 structs whose middle or first field is named like an identifier of the generated code or of the builder API (normalized_time, frame_index, values, easing, build, ...), plus 48 WIDE structs (8, 12, 20, 33 fields x markers none/all/even/first/last/one-in-the-middle x local/remote; three of them compiled in quick, all in thorough); oracle: animated field set = attributed fields, or all if none is attributed; the keyframe builder has exactly one public setter per animated field with the field's type, keyframe data and t_<field> sub-timelines likewise, keyframe_from / values_from / update / start_with touch exactly the animated fields and are wired name-to-name, Target is the (remote) type, visibility copied, accessors forwarded to the time scale. Layer B: {} shapes compiled with the real derive: setter presence observed at run time (inherent-vs-trait method resolution), keyframe_from copies exactly the animated fields (and a later setter, or a second call of the same setter, overrides), un-animated fields keep sentinels, every animated field interpolates per a linear reference on a 41-point time grid (in every other shape each (position, field) is its own keyframe, so keyframes share positions) (delay, two cycles, after the end), metadata accessors return the configured values, and a stepped animation of the first animated field (40 holds = 80 keyframes with tied positions, end-of-hold keyframes added before start-of-hold ones) shows each hold's value inside the hold ({} run-time checks)", if thorough { "1..5 (6 types) and 6 (3 types)" } else { "1..4" }, compiled, checks)));
+    cov.insert("rule".into(), json!(format!("Layer A (in-process expansion of the real derive source, parsed as a syn::File): ALL struct shapes with {} fields over types {{f32,f64,u8,i16,i32,u32}} x every #[animate] subset x struct visibility {{private,pub,pub(crate)}} (field visibilities rotated) x {{local, #[animate(remote = ...)] proxy (bare identifier or module-qualified path)}}, with doc comments / #[allow] / #[cfg] attributes before or after the #[animate] marker and on the struct (rotated over all shapes, and exhaustively for 1..2 fields), plus (Layer B) 72 structs whose middle or first field is named like an identifier of the generated code or of the builder API (normalized_time, frame_index, values, easing, build, ...), plus 48 WIDE structs (8, 12, 20, 33 fields x markers none/all/even/first/last/one-in-the-middle x local/remote; three of them compiled in quick, all in thorough) and 6 structs with one field of each of the 11 numeric types (f32 f64 u8 i16 i32 u32 i8 u16 i64 u64 usize; two compiled in quick); oracle: animated field set = attributed fields, or all if none is attributed; the keyframe builder has exactly one public setter per animated field with the field's type, keyframe data and t_<field> sub-timelines likewise, keyframe_from / values_from / update / start_with touch exactly the animated fields and are wired name-to-name, Target is the (remote) type, visibility copied, accessors forwarded to the time scale. Layer B: {} shapes compiled with the real derive: setter presence observed at run time (inherent-vs-trait method resolution), keyframe_from copies exactly the animated fields (and a later setter, or a second call of the same setter, overrides), un-animated fields keep sentinels, every animated field interpolates per a linear reference on a 41-point time grid; a keyframe that names Easing::Linear explicitly under a non-linear default easing interpolates linearly (in every other shape each (position, field) is its own keyframe, so keyframes share positions) (delay, two cycles, after the end), metadata accessors return the configured values, and a stepped animation of the first animated field (40 holds = 80 keyframes with tied positions, end-of-hold keyframes added before start-of-hold ones) shows each hold's value inside the hold ({} run-time checks)", if thorough { "1..5 (6 types) and 6 (3 types)" } else { "1..4" }, compiled, checks)));
     cov.insert("exhaustive".into(), json!(true));
     cov.insert("compiled_runtime_checks".into(), json!(checks));
     cov.insert("samples".into(), json!(acc.samples));
